@@ -29,6 +29,14 @@ package route
 //     to the sampler the real SamplerFactory builds for the dataset from a
 //     rules file loaded by config.NewConfig.
 //
+// NON-SCALAR values (family "ns"): a field may be nil or a document (a map or
+// an array, Encoding!Docs gives their JSON text). JSON requests carry the text
+// as it is, msgpack requests the same document element by element (fixmap /
+// fixarray, strings, small integers as fixint); OTLP does not carry them
+// (Encoding!Carries). Nothing else changes: the span goes through the same
+// handlers, and the sampler of a configuration with CheckNestedFields reads
+// dotted paths out of the real payload's JSON rendering.
+//
 // Observation: (rate, keep where it is deterministic, reason, sample key) of
 // GetSampleRate, compared with the same observation for the REFERENCE encoding
 // of the same abstract trace (Encoding!RefEnc), evaluated once per vector by
@@ -83,21 +91,37 @@ func c09TraceHex() string { return fmt.Sprintf("%x", c09TraceBytes) }
 // --- the specification's records -------------------------------------------------
 
 type c09Val struct {
-	K string `json:"k"` // abs | s | b | n | nf (rule Value: whole number as float literal) | none | list
+	K string `json:"k"` // abs | s | b | n | nf (rule Value: whole number as float literal) | nil | c (document) | none | list
 	N int    `json:"n"` // tenths for k = n, 0/1 for k = b
-	S string `json:"s"`
+	S string `json:"s"` // the string for k = s, the name of the document (Encoding!Docs) for k = c
+}
+
+// c09Docs is Encoding!Docs (params.docs of the graph): document name -> JSON text.
+var c09Docs map[string]string
+
+func c09Doc(v c09Val) (string, error) {
+	d, ok := c09Docs[v.S]
+	if !ok || v.K != "c" {
+		return "", fmt.Errorf("value %+v is not a document of Encoding!Docs", v)
+	}
+	return d, nil
 }
 
 type c09Field struct {
 	R bool   `json:"r"`
 	N string `json:"n"`
+	P string `json:"p"` // dotted path below the field (CheckNestedFields), "" for the field itself
 }
 
 func (f c09Field) name() string {
-	if f.R {
-		return "root." + f.N
+	n := f.N
+	if f.P != "" {
+		n += "." + f.P
 	}
-	return f.N
+	if f.R {
+		return "root." + n
+	}
+	return n
 }
 
 type c09Cond struct {
@@ -109,11 +133,12 @@ type c09Cond struct {
 }
 
 type c09Cfg struct {
-	Kind  string     `json:"kind"`
-	Scope string     `json:"scope"`
-	Conds []c09Cond  `json:"conds"`
-	Key   []c09Field `json:"key"`
-	Utl   bool       `json:"utl"`
+	Kind   string     `json:"kind"`
+	Scope  string     `json:"scope"`
+	Conds  []c09Cond  `json:"conds"`
+	Key    []c09Field `json:"key"`
+	Utl    bool       `json:"utl"`
+	Nested bool       `json:"nested"` // CheckNestedFields
 }
 
 type c09Span struct {
@@ -257,7 +282,11 @@ func c09SamplerMap(c c09Cfg) (map[string]any, error) {
 			r1["Drop"] = true
 		}
 		r2 := map[string]any{"Name": "r2", "SampleRate": 1}
-		return map[string]any{"RulesBasedSampler": map[string]any{"Rules": []any{r1, r2}}}, nil
+		rb := map[string]any{"Rules": []any{r1, r2}}
+		if c.Nested {
+			rb["CheckNestedFields"] = true
+		}
+		return map[string]any{"RulesBasedSampler": rb}, nil
 	}
 	return nil, fmt.Errorf("unknown configuration kind %q", c.Kind)
 }
@@ -520,6 +549,82 @@ func c09MpNumber(b []byte, n int, w string) ([]byte, error) {
 	return nil, fmt.Errorf("unknown msgpack wire type %q", w)
 }
 
+// c09MpDoc appends the document (JSON text) in msgpack, element by element in
+// the order of the text: objects as fixmap, arrays as fixarray, strings, small
+// integers as fixint, true / false / null.
+func c09MpDoc(b []byte, doc string) ([]byte, error) {
+	dec := json.NewDecoder(strings.NewReader(doc))
+	dec.UseNumber()
+	b, err := c09MpDocValue(b, dec)
+	if err != nil {
+		return nil, fmt.Errorf("document %s: %w", doc, err)
+	}
+	if dec.More() {
+		return nil, fmt.Errorf("document %s: trailing text", doc)
+	}
+	return b, nil
+}
+
+func c09MpDocValue(b []byte, dec *json.Decoder) ([]byte, error) {
+	tok, err := dec.Token()
+	if err != nil {
+		return nil, err
+	}
+	switch t := tok.(type) {
+	case json.Delim:
+		if t != '{' && t != '[' {
+			return nil, fmt.Errorf("unexpected %v", t)
+		}
+		var body []byte
+		n := 0
+		for dec.More() {
+			if t == '{' {
+				kt, err := dec.Token()
+				if err != nil {
+					return nil, err
+				}
+				k, ok := kt.(string)
+				if !ok {
+					return nil, fmt.Errorf("object key %v", kt)
+				}
+				body = c09MpStr(body, k)
+			}
+			if body, err = c09MpDocValue(body, dec); err != nil {
+				return nil, err
+			}
+			n++
+		}
+		if _, err := dec.Token(); err != nil { // the closing delimiter
+			return nil, err
+		}
+		if n > 15 {
+			return nil, fmt.Errorf("%d elements do not fit a fixmap / fixarray", n)
+		}
+		if t == '{' {
+			b = append(b, 0x80|byte(n))
+		} else {
+			b = append(b, 0x90|byte(n))
+		}
+		return append(b, body...), nil
+	case string:
+		return c09MpStr(b, t), nil
+	case json.Number:
+		i, err := strconv.Atoi(t.String())
+		if err != nil {
+			return nil, fmt.Errorf("inner number %s is not a small integer", t)
+		}
+		return c09MpNumber(b, i*10, "fix")
+	case bool:
+		if t {
+			return append(b, 0xc3), nil
+		}
+		return append(b, 0xc2), nil
+	case nil:
+		return append(b, 0xc0), nil
+	}
+	return nil, fmt.Errorf("unexpected token %v", tok)
+}
+
 // c09Wire is one field of a span as it is written: name, abstract value, wire type of a number.
 type c09Wire struct {
 	name string
@@ -562,6 +667,14 @@ func c09JSONObject(t c09Trace, i int, se c09SpanEnc) (string, error) {
 				return "", err
 			}
 			b.WriteString(lit)
+		case "nil":
+			b.WriteString("null")
+		case "c":
+			doc, err := c09Doc(f.val)
+			if err != nil {
+				return "", err
+			}
+			b.WriteString(doc)
 		default:
 			return "", fmt.Errorf("value %+v has no JSON form", f.val)
 		}
@@ -597,6 +710,16 @@ func c09MpObject(t c09Trace, i int, se c09SpanEnc) ([]byte, error) {
 		case "n":
 			var err error
 			if b, err = c09MpNumber(b, f.val.N, f.w); err != nil {
+				return nil, err
+			}
+		case "nil":
+			b = append(b, 0xc0)
+		case "c":
+			doc, err := c09Doc(f.val)
+			if err != nil {
+				return nil, err
+			}
+			if b, err = c09MpDoc(b, doc); err != nil {
 				return nil, err
 			}
 		default:
@@ -641,6 +764,7 @@ func c09OTLPBody(t c09Trace, i int, se c09SpanEnc) ([]byte, error) {
 				return nil, fmt.Errorf("unknown OTLP wire type %q", f.w)
 			}
 		default:
+			// nil and documents: Encoding!Carries excludes OTLP (husky would deliver other fields / a string)
 			return nil, fmt.Errorf("value %+v has no OTLP form", f.val)
 		}
 		sp.Attributes = append(sp.Attributes, &commonpb.KeyValue{Key: f.name, Value: av})
@@ -827,6 +951,7 @@ type c09GraphFile struct {
 	Module string `json:"module"`
 	Params struct {
 		Vecs []json.RawMessage `json:"vecs"` // Encoding!VecSeq: the states carry only the index vid
+		Docs map[string]string `json:"docs"` // Encoding!Docs
 	} `json:"params"`
 	States []json.RawMessage `json:"states"`
 	Abs    []json.RawMessage `json:"abs"`
@@ -902,6 +1027,7 @@ func c09Drive(t *testing.T) error {
 	if len(g.Abs) != len(g.States) {
 		return fmt.Errorf("graph without projections")
 	}
+	c09Docs = g.Params.Docs
 	isInit := make([]bool, len(g.States))
 	for _, s := range g.Init {
 		isInit[s] = true
